@@ -10,7 +10,7 @@ from .splice import Splicer
 from .locate import Locator
 
 CANARY = '\nverus! {\nproof fn __vacuity_canary()\n    ensures false\n{\n}\n}\n'
-FILES = ['byods/ascent-byods-rels/src/union_find.rs', 'byods/ascent-byods-rels/src/utils.rs']
+FILES = ['byods/ascent-byods-rels/src/union_find.rs', 'byods/ascent-byods-rels/src/utils.rs', 'byods/ascent-byods-rels/src/eqrel_ind.rs']
 
 
 def build_unit():
